@@ -3,7 +3,7 @@
 set -e
 cd "$(dirname "$0")/.."
 git merge --no-edit "$1" || true
-for f in MANIFEST.json lean/DriverMain.lean known_findings.json; do
+for f in MANIFEST.json lean/DriverMain.lean known_findings.json $(git status --short | grep -E "^(UU|AA) evidence/" | cut -c4-); do
   if git status --short | grep -qE "^(UU|AA) $f"; then git checkout --ours $f; git add $f; fi
 done
 if git status --short | grep -qE "^(UU|AA|DU|UD)"; then echo "UNRESOLVED:"; git status --short | grep -E "^(UU|AA|DU|UD)"; exit 1; fi
